@@ -247,6 +247,13 @@ func genFields(t *rapid.T) []FieldSpec {
 				}
 				f.Tags[s] = key
 			}
+			if jk := f.Tags["json"]; strings.HasPrefix(jk, "j_f") && i > 0 && rapid.IntRange(0, 5).Draw(t, "jsonNameCaseTwin") == 0 {
+				// two fields whose json names differ only in case ("j_f0" and "J_F0"): the body decoder gives a key to the
+				// field that spells it exactly, the other one has no value
+				if pk := fs[i-1].Tags["json"]; strings.HasPrefix(pk, "j_f") {
+					f.Tags["json"] = strings.ToUpper(pk)
+				}
+			}
 			if _, has := f.Tags["json"]; !has && rapid.IntRange(0, 4).Draw(t, "jsonSkipped") == 0 {
 				// the field is kept out of the body; a body key with the field's Go name is a decoy. (As the only tag
 				// it leaves the field without any source: it keeps its zero or default value.)
@@ -345,7 +352,13 @@ func genReq(t *rapid.T, fs []FieldSpec, allowInvalid bool) (ReqSpec, bool) {
 	if r.Body == "multipart" {
 		r.CT = rapid.SampledFrom([]string{"", "", "", "Multipart/Form-Data; boundary=BOUND", "multipart/form-data; Boundary=BOUND", "multipart/form-data; charset=utf-8; boundary=BOUND"}).Draw(t, "contentTypeSpelling")
 	}
-	if r.Body == "json" && rapid.IntRange(0, 3).Draw(t, "jsonKeysInAnotherCase") == 0 {
+	caseTwins := false
+	for i := range fs {
+		if strings.HasPrefix(fs[i].Tags["json"], "J_F") {
+			caseTwins = true
+		}
+	}
+	if r.Body == "json" && !caseTwins && rapid.IntRange(0, 3).Draw(t, "jsonKeysInAnotherCase") == 0 {
 		r.JSONKeyCase = rapid.IntRange(1, 3).Draw(t, "jsonKeyCase")
 	}
 	if r.Body == "json" {
@@ -732,6 +745,12 @@ func classify(c *genCase) (bool, []string) {
 	}
 	if c.Req.NestedDecoy != 0 {
 		cls = append(cls, "nested-decoy-beside-dotted-json-name")
+	}
+	for i := range c.Fields {
+		if strings.HasPrefix(c.Fields[i].Tags["json"], "J_F") {
+			cls = append(cls, "json-names-differing-in-case-only")
+			break
+		}
 	}
 	nt := false
 	for i := range c.Fields {
